@@ -75,6 +75,7 @@ CFG = {
         "Swat4.C11.remove_current_machine",
         "Swat4.C11.driver_reads_are_model",
         "Swat4.C11.driver_reads_refine",
+        "Swat4.C11.facts_decode_plain",
     ],
     "shards": (4, 16),
     "nontrivial": _c11_nontrivial,
